@@ -10,7 +10,7 @@ import vlib
 
 BASE = dict(LeafCap=3, IntCap=3, FixSplitTomb="TRUE", FixDeleteLSN="TRUE", FixReplayLSN="TRUE", FixReplayRoot="TRUE", FixReplayKey="TRUE",
             Tables='{"t1", "t2"}', Vals="{1, 2}", BadMode='"none"', WalSteps="FALSE", FlushSteps="FALSE",
-            CrashAt="{}", DmlTables=None, Ops='{"create", "insert", "update", "delete"}', MaxStmts=4, MaxRows=2, MaxFlush=1, MaxCrash=0, MaxEvict=0, EmitOn="TRUE", EmitSel='"all"')
+            CrashAt="{}", NoCrashIn="{}", Wheres=None, DmlTables=None, Ops='{"create", "insert", "update", "delete"}', MaxStmts=4, MaxRows=2, MaxFlush=1, MaxCrash=0, MaxEvict=0, EmitOn="TRUE", EmitSel='"all"')
 INVS = "ScanEqAbs CatalogOK TreesOK IdsOK StartsUp NothingLost"
 
 
@@ -19,6 +19,9 @@ def cfg_text(over, invariants=INVS):
     c.update(over)
     if c["DmlTables"] is None:
         c["DmlTables"] = c["Tables"]
+    if c.get("Wheres") is None:
+        vals = [x.strip() for x in c["Vals"].strip("{}").split(",") if x.strip() and x.strip() != "9"]
+        c["Wheres"] = "{" + ", ".join(["0"] + vals) + "}"
     lines = ["CONSTANTS"] + ["  %s = %s" % (k, v) for k, v in c.items()]
     lines += ["INIT MCInit", "NEXT MCNext", "VIEW View", "ACTION_CONSTRAINT Emit", "INVARIANTS " + invariants, "CHECK_DEADLOCK FALSE"]
     return "\n".join(lines) + "\n", c
